@@ -86,7 +86,7 @@ let () =
         (match next () with "|" -> () | _ -> failwith "sep");
         let v = pval () in
         print_endline (string_of_bytes (api_mser t v))
-      | ("session" | "session_nofence") as m :: ops ->
+      | ("session" | "session_nofence" | "sessstate") as m :: ops ->
         let n_of s = n_of_int (int_of_string s) in
         let hexs s = if s = "" then [] else bytes_of_hex s in
         let parse_act a =
@@ -113,6 +113,12 @@ let () =
               let src = site_source (n_of_int site) (n_of_int sev) in
               SLog (n_of w, nat_of_int (int_of_string k),
                     { lg_site = n_of_int site; lg_sev = n_of_int sev; lg_src = { src with s_function = bytes_of_string "fx" }; lg_clock = n_of clock; lg_args = hexs args })
+          | ["lgs"; w; k; site; sev; cat; fn; file; line; fmt; tags; clock; args] ->
+              (* a log statement whose source fields are given explicitly (C08 state tie: the fields are read back from the real log) *)
+              SLog (n_of w, nat_of_int (int_of_string k),
+                    { lg_site = n_of site; lg_sev = n_of sev;
+                      lg_src = { s_id = n_of_int 0; s_sev = n_of sev; s_category = hexs cat; s_function = hexs fn; s_file = hexs file; s_line = n_of line; s_format = hexs fmt; s_argtags = hexs tags };
+                      lg_clock = n_of clock; lg_args = hexs args })
           | ["cl"; w] -> SClose (n_of w)
           | ["as"; n; sev] -> SAddSource (site_source (n_of n) (n_of sev))
           | ["cs"; c; f; ns; tz; name] -> SSetClockSync { cs_clock = n_of c; cs_freq = n_of f; cs_ns = n_of ns; cs_tz = n_of tz; cs_tzname = hexs name }
@@ -120,6 +126,16 @@ let () =
           | ["co"; plans] -> SConsume (if plans = "" then [] else List.map parse_plan (String.split_on_char ';' plans))
           | ["rc"] -> SReconsume
           | _ -> failwith ("op " ^ t) in
+        if m = "sessstate" then
+          (match ops with
+           | cs0 :: rest ->
+             (match String.split_on_char ':' cs0 with
+              | [c; f; ns; tz; name] ->
+                let cs = { cs_clock = n_of c; cs_freq = n_of f; cs_ns = n_of ns; cs_tz = n_of tz; cs_tzname = hexs name } in
+                print_endline (string_of_bytes (api_session_state cs (List.map parse rest)))
+              | _ -> failwith "sessstate cs")
+           | [] -> failwith "sessstate")
+        else
         print_endline (string_of_bytes (api_session (m = "session") (List.map parse ops)))
       | mode :: args ->
         let r = api (bytes_of_string mode) (List.map bytes_of_hex args) in
